@@ -473,7 +473,10 @@ func c08Select(p *chk.Prog, r *chk.Report) {
 			n++
 			node := s.Node.(*ast.AssignStmt).Lhs[0].(*ast.IndexExpr).Index.(*ast.SelectorExpr).X
 			same := func(e ast.Expr) bool { return sn.SameExpr(e, node) }
-			ok := g.Dominated(s, g.GPat(true, "len(LS) == 0"))
+			ok := g.Dominated(s, g.GPat(true, "len(LS) == 0", chk.H("LS", func(e ast.Expr) bool {
+				t := sn.Info().TypeOf(e)
+				return t != nil && t.String() == "[]k8s.io/apimachinery/pkg/labels.Selector"
+			})))
 			if !ok {
 				ok = g.Dominated(s, g.GPat(true, "S.Matches(L)", chk.H("L", definedBy(g, "labels.Set(N.Labels)", chk.H("N", same)))))
 			}
